@@ -47,7 +47,7 @@ MANIFEST = {
     "design": "§6 C11",
 }
 
-LABELS = ["chr1", "chr2", "chr10", "x", "chrY", "c", "chr11", "chr12", "z9", "w", "chr3", "q"]
+LABELS = ["chr1", "chr10", "chr11", "x", "chr2", "chrY", "c", "chr12", "z9", "w", "chr3", "q"]   # neighbours that are prefixes of each other first
 VALS = [3, 0, 5, 5, 1, 7, 2, 0, 9, 4, 6, 1]
 VALS2 = [0, 0, 2, 1, 8, 8, 3, 12, 0, 5]
 SEQS = ["ACGT", "AC", "GGTA", "A", "TTTT", "CAGT", "", "ACG", "TGCA", "CC", "GATTACA", "AAC"]
